@@ -40,6 +40,9 @@ enum Cmd {
     Join { slot: usize },
     Leave { slot: usize },
     LoopOff { slot: usize },
+    /// join the group through an interface address the host does not have: must fail and must
+    /// not make the socket a member
+    BadJoin { slot: usize },
     Drop { slot: usize },
     Send { slot: usize, dst: SocketAddr, payload: Vec<u8> },
     /// drain every socket of this host with a buffer of `buflen` (try_recv_from), or through
@@ -133,6 +136,12 @@ pub fn scenario(ch: &mut Chooser, thorough: bool) -> Exec {
                                     IpAddr::V6(g) => s.join_multicast_v6(&g, 0),
                                 };
                                 st2.borrow_mut().results.push((h, format!("join{slot} {:?}", r.map_err(|e| errk(&e)))));
+                            }
+                        }
+                        Cmd::BadJoin { slot } => {
+                            if let (Some(s), IpAddr::V4(g)) = (&socks[slot], group(v6)) {
+                                let r = s.join_multicast_v4(g, Ipv4Addr::new(10, 9, 9, 9));
+                                st2.borrow_mut().results.push((h, format!("badjoin{slot} {:?}", r.map_err(|e| errk(&e)))));
                             }
                         }
                         Cmd::Leave { slot } => {
@@ -246,6 +255,13 @@ pub fn scenario(ch: &mut Chooser, thorough: bool) -> Exec {
         }
         model.push(ms);
     }
+    // every IPv4 socket first tries to join through an interface address its host does not
+    // have: the call fails and the socket is no member (the reference is left as it is)
+    if !v6 {
+        for m in model.iter().filter(|m| !m.joined) {
+            pending.push((m.host, Cmd::BadJoin { slot: m.slot }));
+        }
+    }
     // ---- dynamic operations
     let nops = ch.choose("dynamic_ops", if thorough { 4 } else { 3 });
     for _ in 0..nops {
@@ -317,12 +333,15 @@ pub fn scenario(ch: &mut Chooser, thorough: bool) -> Exec {
             break;
         }
     }
+    if let Some(r) = st.borrow().results.iter().find(|r| r.1.starts_with("badjoin") && r.1.contains("Ok")) {
+        violation = Some(Violation::new("join", format!("host{} {}: joining a group through an interface address the host does not have succeeded", r.0, r.1)));
+    }
     // ---- probe sweep from every live sender socket
     let buflen = *ch.of("recv_buffer_len", &[16usize, 3]);
     let via_readable = ch.flag("receive_through_readable_then_recv_from");
     let mut tag: u8 = 0;
     let senders: Vec<usize> = (0..model.len()).filter(|&i| model[i].alive && (model[i].host == 0 || model[i].host == 1) && model[i].slot == 0).collect();
-    'probes: for &si in &senders {
+    'probes: for &si in senders.iter().filter(|_| violation.is_none()) {
         let s = model[si].clone();
         let mut dests: Vec<(String, SocketAddr)> = vec![];
         if s.lo {
